@@ -88,6 +88,7 @@ type Conn struct {
 
 type WriteMark struct {
 	At   time.Duration
+	Seq  uint64 // scheduler event sequence number at the time of the write
 	Data []byte
 	Task string
 }
@@ -194,13 +195,13 @@ func (c *Conn) Write(p []byte) (int, error) {
 	}
 	if c.out.hole {
 		if c.KeepWrites {
-			c.WriteLog = append(c.WriteLog, WriteMark{At: simrt.S.Now(), Data: append([]byte(nil), p...)})
+			c.WriteLog = append(c.WriteLog, WriteMark{At: simrt.S.Now(), Seq: simrt.S.Seq, Data: append([]byte(nil), p...)})
 		}
 		return len(p), nil
 	}
 	s := simrt.S
 	if c.KeepWrites {
-		c.WriteLog = append(c.WriteLog, WriteMark{At: s.Now(), Data: append([]byte(nil), p...), Task: simrt.CurrentSite()})
+		c.WriteLog = append(c.WriteLog, WriteMark{At: s.Now(), Seq: s.Seq, Data: append([]byte(nil), p...), Task: simrt.CurrentSite()})
 	}
 	at := s.Now() + c.link.latency()
 	if at < c.out.lastAt {
